@@ -45,8 +45,11 @@ def _gpt_case(draw):
     mp = draw(st.sampled_from([1, 1, 2]))
     dp = draw(st.sampled_from([1, 2]))
     blocks = draw(st.sampled_from([1, 2]))
+    pp = draw(st.sampled_from([1, 1, 2]))
+    if pp == 2 and mp == 2 and dp == 2:
+        dp = 1
     kl = draw(st.one_of(st.sampled_from([1e-3, 1e-5, 0.1, None]), st.lists(st.sampled_from([1e-3, 1e-6, None, 10.0]), min_size=2, max_size=3).map(lambda t: {'table': t})))
-    return {'kind': 'gpt', 'pipe': 1, 'data': dp, 'model': mp, 'blocks': blocks, 'h': draw(st.integers(1, 4)), 'f': mp * draw(st.integers(1, 3)),
+    return {'kind': 'gpt', 'pipe': pp, 'data': dp, 'model': mp, 'blocks': blocks, 'h': draw(st.integers(1, 4)), 'f': mp * draw(st.integers(1, 3)),
             'bias': [[draw(st.booleans()), draw(st.booleans())] for _ in range(blocks)], 'seed': draw(st.integers(0, 999)), 'N': draw(st.integers(1, 3)),
             'cap': draw(st.sampled_from([0, 25.0])), 'in_hook': True, 'prediv': False,
             'hp': {'factor_update_steps': 1, 'inv_update_steps': 1, 'damping': draw(st.sampled_from([0.01, 0.1, 1.0])), 'factor_decay': 0.9,
@@ -65,11 +68,12 @@ class C07(Prop):
             'gradient on every rank == nu_pred*V within 5e-6 relative (one scalar for all layers and ranks), nu <= 1, nu^2 lr^2 |sum<V,D>| <= kl (1+1e-4); '
             'kl_clip=None constructs and gives exactly V (bit-identical). Non-trivial: some step has nu_pred < 0.99 with >= 2 layers, or kl None, or a zero gradient.')
     assumptions = ['V of the unclipped run is bit-identical to the clipped run\'s pre-scaling result (same operations), so only the scalar is under test',
-                   'GPT-NeoX share (one quarter of the cases): data 1-2 x model 1-2 on DeepSpeed/Megatron doubles; model >= 2 with active clipping is the open known finding F7']
+                   'GPT-NeoX share (one quarter of the cases): pipe 1-2 x data 1-2 x model 1-2 on DeepSpeed/Megatron doubles; model >= 2 with active clipping is the open known finding F7',
+                   'with pipe = 2 every stage has its own preconditioner instance: "sum over layers" may be the instance\'s layers (what the code does) or all layers of the model; a run must follow one of the two readings consistently, anything else is reported (key clip-scale-pipeline)']
     examples = {'quick': 120, 'thorough': 500}
     shards = {'quick': 4, 'thorough': 16}
     shrink_budget_s = {'quick': 30.0, 'thorough': 180.0}
-    required_labels = {'quick': ['nontrivial=True', 'kl_none=True', 'clip_active=True', 'zero_grad=True', 'multi_rank=True'],
+    required_labels = {'quick': ['nontrivial=True', 'kl_none=True', 'clip_active=True', 'zero_grad=True', 'multi_rank=True', 'pipe=2'],
                        'thorough': ['nontrivial=True', 'kl_none=True', 'clip_active=True', 'zero_grad=True', 'multi_rank=True', 'lr_zero=True']}
 
     def strategy(self, tier):
@@ -90,10 +94,10 @@ class C07(Prop):
         import torch
         from vkit import gptrun
         from vkit.ds_doubles import PipeModelDataParallelTopology
-        dp, mp = case['data'], case['model']
-        W = dp * mp
+        dp, mp, pp = case['data'], case['model'], case.get('pipe', 1)
+        W = dp * mp * pp
         program = [{'op': 'train', 'seed': case['data_seed'] + t} for t in range(case['steps'])]
-        labels = {'gpt': True, 'W': W, 'multi_rank': W > 1, 'model': mp, 'data': dp}
+        labels = {'gpt': True, 'W': W, 'multi_rank': W > 1, 'model': mp, 'data': dp, 'pipe': pp}
         unclipped = copy.deepcopy(case)
         unclipped['hp']['kl_clip'] = 1e30
         outs = []
@@ -107,13 +111,17 @@ class C07(Prop):
                 return violation(f'GPT-NeoX run with kl_clip={c["hp"]["kl_clip"]}: {v}', key, labels=labels)
             outs.append(res.results)
         base, clipped = outs
-        topo = PipeModelDataParallelTopology(num_pp=1, num_mp=mp, num_dp=dp)
+        topo = PipeModelDataParallelTopology(num_pp=pp, num_mp=mp, num_dp=dp)
         worst, active, kl_none = 0.0, False, False
+        # Every pipeline stage runs its own preconditioner over its own layers.  The statement's "sum over layers" is read, for
+        # pipe > 1, either as the stage's layers (what each instance can see) or as all layers of the model (one scalar for the
+        # whole model); a run must follow ONE of the two readings on every rank and step.  Anything else is a violation.
+        readings = ['stage', 'global'] if pp > 1 else ['stage']
+        failures = {}
         for t in range(case['steps']):
             kl, lr = _at(case['hp']['kl_clip'], t), _at(case['hp']['lr'], t)
             # sum over layers of <V, D>: every shard once (data-parallel replica 0), replicated row-parallel biases once
-            vg = 0.0
-            nlayers = 0
+            vgs = [0.0] * pp
             for rank in range(W):
                 co = topo.get_coord(rank)
                 if co.data != 0:
@@ -122,27 +130,36 @@ class C07(Prop):
                 for n, V in b['after'].items():
                     if n.endswith('row.bias') and co.model != 0:
                         continue
-                    vg += (V.double() * b['before'][n].double()).sum().item()
-                    nlayers += 1
-            vg *= lr ** 2
-            nu = 1.0 if (kl is None or vg == 0.0) else min(1.0, math.sqrt(kl / abs(vg)))
+                    vgs[co.pipe] += (V.double() * b['before'][n].double()).sum().item()
+            def nu_of(vg):
+                vg = vg * lr ** 2
+                return 1.0 if (kl is None or vg == 0.0) else min(1.0, math.sqrt(kl / abs(vg)))
+            nus = {'stage': [nu_of(v) for v in vgs], 'global': [nu_of(sum(vgs))] * pp}
             kl_none |= kl is None
-            active |= nu < 0.99
+            active |= any(nu < 0.99 for nu in nus['stage'])
             for rank in range(W):
+                stage = topo.get_coord(rank).pipe
                 for n, V in base[rank][t]['after'].items():
                     got = clipped[rank][t]['after'][n]
-                    where = f'GPT-NeoX step {t} rank {rank} {tuple(topo.get_coord(rank))} {n} (kl_clip={kl}, lr={lr}, data={dp}, model={mp})'
+                    where = f'GPT-NeoX step {t} rank {rank} {tuple(topo.get_coord(rank))} {n} (kl_clip={kl}, lr={lr}, pipe={pp}, data={dp}, model={mp})'
                     if kl is None:
                         if not torch.equal(got, V):
                             return violation(f'{where}: kl_clip=None must leave the gradient unscaled', 'kl-none-scaled', labels=labels)
                         continue
-                    exp = nu * V.double()
-                    den = exp.norm().item()
-                    err = (got.double() - exp).norm().item() / den if den > 0 else got.norm().item()
-                    worst = max(worst, err)
-                    if err > 5e-6:
-                        key = 'clip-scale-model-parallel' if mp >= 2 else 'clip-scale'
-                        return violation(f'{where}: gradient != nu_pred * V with nu_pred={nu:.6g} (relative error {err:.3e})', key, labels=labels)
+                    for rd in readings:
+                        if rd in failures:
+                            continue
+                        nu = nus[rd][stage]
+                        exp = nu * V.double()
+                        den = exp.norm().item()
+                        err = (got.double() - exp).norm().item() / den if den > 0 else got.norm().item()
+                        if err > 5e-6:
+                            failures[rd] = f'{where}: gradient != nu_pred * V with nu_pred={nu:.6g} ({rd} sum; relative error {err:.3e})'
+                        else:
+                            worst = max(worst, err)
+                    if len(failures) == len(readings):
+                        key = 'clip-scale-model-parallel' if mp >= 2 else ('clip-scale-pipeline' if pp > 1 else 'clip-scale')
+                        return violation(' | '.join(failures[r] for r in readings), key, labels=labels)
         nt = active or kl_none
         labels.update({'nontrivial': nt, 'clip_active': active, 'kl_none': kl_none})
         return passed(nt, labels, {'worst': worst})
